@@ -172,6 +172,18 @@ def einsum_terms(fn_node):
     return out
 
 
+def einsum_groups(fn_node):
+    """einsum terms grouped by the return statement (or generator) that adds them up: {return lineno: set of (sign, pattern, operands)}"""
+    terms = einsum_terms(fn_node)
+    groups = {}
+    for s in ast.walk(fn_node):
+        if isinstance(s, ast.Return) and s.value is not None:
+            inside = [(sg, p, tuple(o)) for sg, p, o, c in terms if any(x is c for x in ast.walk(s))]
+            if inside:
+                groups[s.lineno] = frozenset(inside)
+    return groups
+
+
 EINSUM_ORACLE = {
     'Inverse': [('-', 'Aij,AjkB,Akl->AilB', ['self', 'd(func)', 'self'])],
     'Determinant': [('+', 'A,Aji,AijB->AB', ['self', 'inverse(self.func)', 'd(func)'])],
@@ -214,6 +226,14 @@ def check_einsum(model, rep):
             if any(g[2] == w[2] for w in wantc):
                 continue  # already reported as a wrong pattern
             rep.ob('R04.2', f.key, f.where(), False, f'unexpected extra term {g[0]}einsum {g[1]} over {g[2]} in {cname}._derivative', statement=f'extra {g[2]}')
+    # terms of one rule must be ADDED in one return expression (a case split that returns them separately drops a term)
+    GROUPS = {'Power': [1, 2], 'Multiply': [2], 'Legendre': [1]}
+    for cname, sizes in GROUPS.items():
+        f = model.cls(f'evaluable:{cname}').members['_derivative'].func
+        got = sorted(len(g) for g in einsum_groups(f.node).values())
+        ok = got == sorted(sizes)
+        rep.ob('R04.2', f.key, f.where(), ok, f'the terms of the {cname} rule are summed in one expression per branch ({sizes})' if ok else
+               f'{cname}._derivative returns its einsum terms in groups of {got} instead of {sorted(sizes)}: a branch returns one term of the sum/product rule without the other', statement='terms-summed-together')
     # Power: constant-exponent branch decrements non-zero exponents only; Pointwise sums over zip(dependencies, deriv)
     p = model.cls('evaluable:Power').members['_derivative'].func
     txt = src(p.node)
@@ -327,6 +347,37 @@ def check_linear(model, rep):
     rep.ob('R04.4', ch.key, ch.where(), ok, 'the choice axis is moved back to the end after differentiating the choices', statement='choose-rule')
 
 
+def check_accumulation(model, rep):
+    """R04.5: a derivative that is accumulated over the arguments/terms of a node (initialised with Zeros before a loop, returned after it)
+    must be updated with `+=` (or mention itself on the right-hand side) inside the loop - an overwrite keeps only the last contribution."""
+    n = 0
+    for f in model.functions.values():
+        if f.name != '_derivative' or isinstance(f.node, ast.Lambda) or f.module.short not in ('evaluable', 'function'):
+            continue
+        inits = {}
+        for s in f.body:
+            if isinstance(s, ast.Assign) and isinstance(s.targets[0], ast.Name) and isinstance(s.value, ast.Call) and src(s.value.func).rsplit('.', 1)[-1] in ('Zeros', 'zeros', 'zeros_like'):
+                inits[s.targets[0].id] = s
+        rets = {src(r.value) for r in find_stmts(f.body, lambda s: isinstance(s, ast.Return)) if r.value is not None}
+        for name, init in inits.items():
+            if name not in rets:
+                continue
+            loops = [l for l in f.body if isinstance(l, (ast.For, ast.While)) and l.lineno > init.lineno]
+            for l in loops:
+                for s in ast.walk(l):
+                    if isinstance(s, ast.Assign) and any(isinstance(t, ast.Name) and t.id == name for t in s.targets):
+                        n += 1
+                        ok = any(isinstance(x, ast.Name) and x.id == name for x in ast.walk(s.value))
+                        rep.ob('R04.5', f.key, f.where(s), ok, f'`{name}` keeps its previous contributions' if ok else
+                               f'`{stmt_text(s)[:70]}` overwrites the accumulator `{name}` inside the loop over the arguments: only the last contribution to the chain rule survives', statement=f'accumulate {name}')
+                    elif isinstance(s, ast.AugAssign) and isinstance(s.target, ast.Name) and s.target.id == name:
+                        n += 1
+                        ok = isinstance(s.op, ast.Add)
+                        rep.ob('R04.5', f.key, f.where(s), ok, f'contributions are added to `{name}`' if ok else f'`{stmt_text(s)[:60]}` does not add the contribution', statement=f'accumulate {name}')
+    if n < 2:
+        raise AnalysisError(f'only {n} accumulated derivatives found (expected _CustomEvaluable._derivative and Monomial._derivative)')
+
+
 def check_zero_rules(model, rep):
     d = model.func('evaluable:derivative')
     txt = src(d.node)
@@ -370,11 +421,13 @@ def run(model, rep, tier):
     rep.rule('R04.2', 'einsum patterns of the matrix-calculus rules (up to renaming), with sign')
     rep.rule('R04.3', 'zero rules, memo and assertion of the driver')
     rep.rule('R04.4', 'linear structural rules act on the right axis of the derivative')
+    rep.rule('R04.5', 'derivatives accumulated over arguments are added, not overwritten')
     rep.trusted_base.append('oracles/calculus.json (textbook calculus)')
     check_tables(model, rep, oracle)
     check_einsum(model, rep)
     check_zero_rules(model, rep)
     check_linear(model, rep)
+    check_accumulation(model, rep)
     rep.require('R04.1', 50)
     rep.require('R04.2', 16)
     rep.require('R04.3', 8)
